@@ -10,14 +10,16 @@ genparams = cc.genparams
 MANIFEST = dict(
     engine="cron",
     technique="Coq proof that the model's explicit step budgets are never exhausted (ranking function on months left; "
-              "wall-clock measure for the outer loop) + watchdog, crash and race-detector harness on the real trigger",
+              "wall-clock measure for the outer loop) + watchdog, crash and race-detector harness on the real trigger"
+              " + source-to-Gallina translation of internal/csm's node level proved equivalent to the model (SrcTie)",
     text="Machine-checked: for every well-formed expression, every zone table with offsets within +-26h and every prev in "
          "[0, MaxInt64] the model of NextFireTime returns a fire time strictly after prev or expiry, never its out-of-fuel value: "
          "the state machine search terminates (a ranking function counting the months left until the last admissible year decreases "
          "at every node step) and so does the DST candidate loop. Purity holds of the model by construction. The tie to the code: "
          "every harness evaluation runs under a watchdog (10 s per call) with crash detection, expressions that can never fire again "
          "are over-represented, the model must agree on every case, and one trigger is called from 16 goroutines under the race "
-         "detector with a fields dump before and after. Real-time promptness is observed, not proved.",
+         "detector with a fields dump before and after. Real-time promptness is observed, not proved."
+         " The node level of internal/csm (util.go, common_node.go, day_node.go: every function) is additionally translated from the Go SOURCE into Gallina on every run (Gen/CsmSrc.v) and proved equal to the model's node functions for all inputs (SrcEquiv.v, Props/SrcTie.v), so a change of these functions breaks a proof obligation even where no sampled input shows it.",
     design_ref="6 C06")
 
 
